@@ -311,6 +311,23 @@ def m_str(R, args, kw, node):
     return R.ctx.uf_apply(R, "str_of", [R.data(v)] if not v.is_const else [mk_str(repr(v.z))], T.Str)
 
 
+@builtin("bytes")
+def m_bytes(R, args, kw, node):
+    if not args:
+        return R.lift(b"")
+    if args[0].t.kind == "bytes":
+        return args[0]
+    raise Unsupported("bytes(%s)" % args[0].t)
+
+
+@method("bytes", "strip", "rstrip", "lstrip")
+def bytes_strip(R, recv, args, kw, node):
+    name = node.func.attr
+    res = R.ctx.uf_apply(R, "bytes." + name, [recv] + [R.data(a) for a in args], T.Bytes)
+    R.assume(z3.Length(res.z) <= z3.Length(recv.z))
+    return res
+
+
 @builtin("list", "tuple")
 def m_list(R, args, kw, node):
     as_tuple = isinstance(node.func, ast.Name) and node.func.id == "tuple"
